@@ -255,7 +255,13 @@ func addModuleSentinel(ctx context.Context, rootPath string) (err error) {
 		sentinelLocation = path.Join(fromBundleConfig(ctx).mainRoot, rootPath)
 	}
 
-	pathInBundle := path.Join(ModuleDir, sentinelLocation)
+	dirInBundle := ModuleDir
+	if !isImportModule(ctx) && fromBundleConfig(ctx).mainRoot == "" {
+		// The main script has no module: its files are bundled under NoModuleDir, and so
+		// must be the sentinels found below it.
+		dirInBundle = NoModuleDir
+	}
+	pathInBundle := path.Join(dirInBundle, sentinelLocation)
 	if exists, err := ctxfs.FileExists(ctx, bundleFsKey, pathInBundle); err != nil {
 		return err
 	} else if exists {
